@@ -407,3 +407,46 @@ def check_unbound(ctx, rule="UNBOUND"):
     if not bad_all:
         ctx.hold(rule, "droplets:locals-bound", next(iter(m.all_functions())), f"every read of a local variable in {n_fn} functions is preceded by a binding on every branch path")
     return n_fn
+
+
+def check_amplitude_reductions(ctx, rule="EMPTY"):
+    """the amplitude vector of a perturbed droplet may be empty (`amplitudes=None` is the constructor's default): a reduction
+    without identity (`max`, `min`, `argmax`, `argmin`, `ptp` and their nan-variants) over it raises ValueError for exactly
+    those droplets — rendering or refining an unperturbed member of a perturbed class then aborts"""
+    m = ctx.model
+    NOID = {"max", "min", "amax", "amin", "argmax", "argmin", "nanmax", "nanmin", "nanargmax", "nanargmin", "ptp"}
+    base = m.cls("PerturbedDropletBase")
+    bad = []
+    n = 0
+    for ci in [base] + m.subclasses(base):
+        for name, lst in ci.methods.items():
+            for fi in lst:
+                if fi.cls is not ci:
+                    continue
+                n += 1
+                for c in ast.walk(fi.node):
+                    if not isinstance(c, ast.Call):
+                        continue
+                    fn = c.func.attr if isinstance(c.func, ast.Attribute) else (c.func.id if isinstance(c.func, ast.Name) else "")
+                    if fn not in NOID or any(k.arg in ("initial", "default") for k in c.keywords):
+                        continue
+                    operand = c.args[0] if (c.args and not (isinstance(c.func, ast.Attribute) and U(c.func.value) not in ("np", "numpy", "math"))) else (c.func.value if isinstance(c.func, ast.Attribute) else None)
+                    if operand is None or "amplitudes" not in U(operand):
+                        continue
+                    # a guard on the number of amplitudes makes the reduction safe
+                    bad.append((fi, c))
+    fv_guarded = []
+    for fi, c in bad:
+        fv = view(m, fi)
+        si = stmt_index(fv)
+        g = [U(t) for t, _p in si.effective_guards(c)]
+        if any("len(self.amplitudes)" in t or "self.amplitudes.size" in t or "self.modes" in t for t in g):
+            fv_guarded.append((fi, c))
+    bad = [b for b in bad if b not in fv_guarded]
+    if bad:
+        fi, c = bad[0]
+        ctx.violate(rule, f"{fi.qualname}:amplitude-reduction", (fi, c), f"`{U(c)[:60]}` reduces the amplitude vector without an identity: for a droplet without amplitudes (the constructor's default) "
+                    "numpy raises `zero-size array to reduction operation`, so the droplet cannot be rendered / refined")
+    else:
+        ctx.hold(rule, "PerturbedDropletBase:amplitude-reductions", base.node, f"no identity-less reduction over the (possibly empty) amplitude vector in {n} methods")
+    return 1
